@@ -101,7 +101,13 @@ def _is_predicate(callee):
 def helper_with_effects(ctx, f, callee):
     """A private helper of the allocator's class that is a *piece of the allocator*: it changes something, or it hands back what the
     allocator works on (the candidate lists).  Pure predicates are not pieces: their truth is tracked as a fact."""
-    if callee.cls != f.cls or not callee.name.startswith("_") or callee.name.endswith("__"):
+    from .common import is_private_helper
+    if callee.cls is None:
+        # a private module-level helper (of the allocator's module or of a private module of the package): a piece when it is not a
+        # predicate
+        if not is_private_helper(callee):
+            return False
+    elif callee.cls != f.cls or not callee.name.startswith("_") or callee.name.endswith("__"):
         return False
     if any(e.kind in ("store", "mut", "del") for g in ctx.eff.reachable([callee], precise=True) for e in ctx.eff.of(g)):
         return True
